@@ -47,7 +47,18 @@ fn secp_call(t: &mut Tape, d: &mut Dag) -> u32 {
         let a = d.atom(b);
         args.push(q(d, a));
     }
-    call(d, if use_k1 { &[0x13, 0xd6, 0x1f, 0x00] } else { &[0x1c, 0x3a, 0x8f, 0x00] }, &args)
+    // mostly the assigned opcodes; sometimes a neighbour that differs in the low byte (cost-function bits / ignored bits)
+    // or in the multiplier: those are plain unknown operators for aware and unaware nodes alike
+    let mut code: [u8; 4] = if use_k1 { [0x13, 0xd6, 0x1f, 0x00] } else { [0x1c, 0x3a, 0x8f, 0x00] };
+    if t.chance(1, 5) {
+        match t.below(4) {
+            0 => code[3] = 1 + t.below(0x3f) as u8,
+            1 => code[3] = [0x40u8, 0x80, 0xc0][t.below_usize(3)] | t.below(0x40) as u8,
+            2 => code[2] ^= 1 << t.below(8),
+            _ => code[3] = t.below(256) as u8,
+        }
+    }
+    call(d, &code, &args)
 }
 
 /// programs with well-formed / nested / failing guards, keccak inside extension 1, 4-byte secp ops
@@ -196,7 +207,7 @@ pub fn test_c08(c: &ProgCase) -> Verdict {
             return Verdict::fail(format!("panic: {m}\n {}", show_case(c)));
         }
     }
-    let has_secp4 = c.p.prog.n.iter().any(|n| matches!(n, crate::dag::N::A(b, _) if b == &vec![0x13u8, 0xd6, 0x1f, 0x00] || b == &vec![0x1cu8, 0x3a, 0x8f, 0x00]));
+    let has_secp4 = c.p.prog.n.iter().any(|n| matches!(n, crate::dag::N::A(b, _) if b.len() == 4 && (b[..3] == [0x13u8, 0xd6, 0x1f] || b[..3] == [0x1cu8, 0x3a, 0x8f])));
     if aware.out.is_ok() {
         if aware.out != unaware.out {
             return Verdict::fail(format!(
